@@ -13,7 +13,7 @@ abstract force field
     link  = dict(kind, resnames=[...], atoms=[(ref, replace-dict, select-dict)], ixns=[dict(sect, atoms=[ref], params)])
     mod   = dict(name, atoms=[(atomname, replace-dict)], ixns=[dict(sect, atoms=[atomname], params)])
 abstract residue graph
-    dict(nodes=[[key, resid, resname, from_itp|None]] (insertion order), edges=[[u, v]] (insertion order))
+    dict(nodes=[[key, resid, resname, from_itp|None]] (insertion order), edges=[[u, v] or [u, v, linktype]] (insertion order))
 
 `findings` (a set of shape ids) switches on input shapes for which the unchanged program is known to
 violate C01/C13 (see notes/C01_findings.md, notes/C13_findings.md); the default stream avoids them.
@@ -166,6 +166,18 @@ def gen_ff(rng, findings=(), protein=None, multires=None, syntax=None):
                           atoms=[("BB", {}, {"charge": probe}), ("+BB", {}, {})],
                           ixns=[dict(sect="exclusions", atoms=["BB", "+BB"], params=[])],
                           edges=[("BB", "+BB")]))
+    # an alternative parameter set behind a [ molmeta ] requirement: the molecules gen_params builds carry no
+    # meta data, so such a link is never applicable and nothing of it may be seen
+    if rng.random() < 0.3:
+        links.append(dict(kind="molmeta", resnames=[b["name"] for b in singles], molmeta=[("stiff", "true")],
+                          atoms=[("BB", {"atype": "C2s", "charge": -0.25}, {}), ("+BB", {}, {})],
+                          ixns=[dict(sect="bonds", atoms=["BB", "+BB"], params=_params(rng)),
+                                dict(sect="angles", atoms=["BB", "+BB", "++BB"], params=_params(rng))]))
+    # a ring-closure link: applies only along residue-graph edges tagged linktype=circle
+    if rng.random() < 0.35:
+        links.append(dict(kind="circle", resnames=[b["name"] for b in singles], atoms=[],
+                          ixns=[dict(sect="bonds", atoms=["BB", ">BB"], params=_params(rng))],
+                          edges=[("BB", ">BB " + json.dumps({"linktype": "circle"}))]))
     # a one-residue link that renames an atom: modifications applied afterwards go by the NEW name
     big = [b for b in singles if len(b["atoms"]) >= 2 and b["syntax"] == "ff"]
     if big and rng.random() < 0.3:
@@ -199,11 +211,25 @@ def gen_ff(rng, findings=(), protein=None, multires=None, syntax=None):
         big = [b for b in singles if len(b["atoms"]) == 2] or [b for b in singles if len(b["atoms"]) >= 2]
         if big:
             block = rng.choice(big)
+            last = block["atoms"][-1]["atomname"]
             links.append(dict(kind="remove", resnames=[block["name"]],
-                              atoms=[(block["atoms"][-1]["atomname"], {"atomname": None}, {})], ixns=[],
-                              non_edges=[(block["atoms"][-1]["atomname"], "+BB")]))
+                              atoms=[(last, {"atomname": None}, {})], ixns=[],
+                              non_edges=[(last, "+BB")]))
+            if rng.random() < 0.7:
+                # another link that MENTIONS the removed atom next to interactions on atoms that stay (other keys
+                # than every other link: the pattern link, which also writes pairs, is dropped)
+                links[:] = [l for l in links if l["kind"] not in ("pattern", "multiterm")]
+                links.append(dict(kind="mention", resnames=[block["name"]], atoms=[],
+                                  ixns=[dict(sect="angles", atoms=["BB", last, "+BB"], params=_params(rng)),
+                                        dict(sect="pairs", atoms=["BB", "+BB"], params=_params(rng, "pairs"))],
+                                  edges=[("BB", "+BB")]))
     # dangling interactions of .itp blocks (become links): last atom -- first atom of the next residue
+    removing = {name for l in links if l["kind"] == "remove" for name in l["resnames"]}
     for block in singles:
+        if block["name"] in removing:
+            # the removing link carries `[ non-edges ] last +BB`: a link that bonds exactly these two atoms would
+            # make the removal depend on which of the two is applied first (see notes/C13_findings.md, non-edges)
+            continue
         if block["syntax"] == "itp" and rng.random() < 0.4:
             n = len(block["atoms"])
             block["dangling"].append(dict(sect="bonds", atoms=[n - 1, n], params=_params(rng), meta={}))
@@ -274,6 +300,10 @@ def render_block(block):
 
 def render_link(link):
     lines = ["[ link ]", 'resname "%s"' % "|".join(link["resnames"])]
+    if link.get("molmeta"):
+        lines.append("[ molmeta ]")
+        for k, v in link["molmeta"]:
+            lines.append("%s %s" % (k, v))
     if link["atoms"]:
         lines.append("[ atoms ]")
         for ref, replace, select in link["atoms"]:
@@ -431,10 +461,17 @@ def gen_graph(rng, ff, findings=(), nmin=3, nmax=12, shape=None, start=None, key
         rng.shuffle(order)
     nodes = [[klist[p], start + p, seq[p][0], seq[p][1]] for p in order]
     elist = []
-    for u, v in edges:
+    closing = edges[-1] if shape == "cyclic" and len(edges) >= n else None
+    for edge in edges:
+        u, v = edge
+        label = None
+        if edge is closing and rng.random() < 0.5:
+            label = "circle"                                   # ring closure tagged as the .ig reader tags it
+        elif rng.random() < 0.04:
+            label = rng.choice(["circle", "special"])          # any edge of a .json graph may carry a linktype
         if rng.random() < 0.5:
             u, v = v, u
-        elist.append([klist[u], klist[v]])
+        elist.append([klist[u], klist[v]] + ([label] if label else []))
     if shuffle:
         rng.shuffle(elist)
     return dict(nodes=nodes, edges=elist, shape=shape, start=start, keys=keys, shuffled=bool(shuffle),
@@ -464,6 +501,6 @@ def to_json_graph(graph):
         if from_itp:
             node["from_itp"] = from_itp
         nodes.append(node)
-    edges = [{"source": u, "target": v} for u, v in graph["edges"]]
+    edges = [dict({"source": e[0], "target": e[1]}, **({"linktype": e[2]} if len(e) > 2 else {})) for e in graph["edges"]]
     # networkx >= 3.4 reads the edge list from "edges", older versions from "links": give both
     return {"directed": False, "multigraph": False, "graph": {}, "nodes": nodes, "edges": edges, "links": edges}
